@@ -433,6 +433,10 @@ func C14(ctx *core.Ctx) {
 	}
 	// ---- R5 ---------------------------------------------------------------------
 	perMessageTransports(ctx, r, "C14.R5")
+	ctx.Rule("C14.R10", "the EXCEPTION reply carries the handler's own exception: kind and message go from SendError to the constructed TApplicationException unchanged", 2)
+	errorKindFidelity(ctx, r, "C14.R10")
+	ctx.Rule("C14.R11", "every accepted connection / received message is served by a goroutine of its own with its own value: goroutines started in a loop capture per-iteration variables only", 1)
+	c03LoopCapture(ctx, r, "C14.R11")
 	// handler closures run concurrently, once per message: they must not write storage captured from the enclosing function
 	hs := httpHandlers(r)
 	for h := range msgHandlers(r) {
@@ -688,5 +692,100 @@ func c14WireNames(ctx *core.Ctx, cc *CC) {
 			ctx.Check(ok, "C14.R9", QName(fn)+sprintf(" › %s… #%d names the method by its wire name", strings.TrimSuffix(hit, "("), n), cc.IPos(c.Instr), "the %q argument derives from parser.LowercaseFirstLetter",
 				"the method name emitted here is not the lower-cased wire name (e.g. the raw method.Name): for a method whose IDL name starts with an upper-case letter this message is written under another name than the one the request, the registration and the other replies use, and the client rejects it with 'wrong method name'")
 		}
+	}
+}
+
+// errorKindFidelity — the exception a handler (or the middleware chain) ends
+// with reaches the wire with its own type id and message: on the way from
+// SendError to thrift.NewTApplicationException the `kind` and `message`
+// parameters are handed on as they are — never replaced by a value computed
+// from them (a "normalised" kind turns an application-defined or frugal
+// specific exception type into another one at the caller).
+func errorKindFidelity(ctx *core.Ctx, r *RT, rule string) {
+	n := 0
+	seen := map[*ssa.Function]bool{}
+	var visit func(fn *ssa.Function, idx int, what string)
+	visit = func(fn *ssa.Function, idx int, what string) {
+		// callers of fn: the argument for parameter idx
+		for _, caller := range r.Fns {
+			for _, c := range ssax.Calls(caller) {
+				if c.Static != fn || idx >= len(c.Common.Args) {
+					continue
+				}
+				arg := ssax.Strip(c.Common.Args[idx])
+				n++
+				ok := true
+				var from *ssa.Parameter
+				for _, p := range caller.Params {
+					if types.Identical(p.Type(), arg.Type()) && ssa.Value(p) != arg && dependsOn(arg, p, 0) {
+						if call, isCall := arg.(*ssa.Call); isCall {
+							// a helper of the package that returns its argument on every path is the identity
+							h := call.Call.StaticCallee()
+							ident := h != nil && h.Pkg == r.Pkg && len(h.Blocks) > 0
+							if ident {
+								for _, rv := range ReturnedValues(h) {
+									if _, isPar := ssax.Strip(rv[0]).(*ssa.Parameter); !isPar {
+										ident = false
+									}
+								}
+							}
+							if ident || h == nil || h.Pkg != r.Pkg {
+								continue
+							}
+						}
+						ok, from = false, p
+					}
+				}
+				detail := ""
+				if from != nil {
+					detail = "the " + what + " handed to " + ssax.Name(fn) + " is " + arg.String() + ", computed from this function's parameter " + from.Name() + " instead of the parameter itself: the exception the caller decodes has another type id / message than the one the handler or middleware produced"
+				}
+				ctx.Check(ok, rule, ssax.Name(caller)+sprintf(" › hands the exception %s on unchanged (call #%d of %s)", what, n, fn.Name()), r.IPos(c.Instr), "the argument is the parameter itself, a constant, or a value of the error being reported", detail)
+				if p, isPar := arg.(*ssa.Parameter); isPar && !seen[caller] {
+					seen[caller] = true
+					for j, q := range caller.Params {
+						if q == p {
+							visit(caller, j, what)
+						}
+					}
+				}
+			}
+		}
+	}
+	for _, fn := range r.Fns {
+		for _, c := range ssax.Calls(fn) {
+			if !strings.HasSuffix(c.FullName(), "thrift.NewTApplicationException") || len(c.Common.Args) != 2 {
+				continue
+			}
+			for ai, what := range []string{"kind", "message"} {
+				p, isPar := ssax.Strip(c.Common.Args[ai]).(*ssa.Parameter)
+				if !isPar {
+					// computed right at the constructor from a parameter?
+					arg := ssax.Strip(c.Common.Args[ai])
+					if ai != 0 {
+						continue // a message composed on the spot is that function's own message
+					}
+					for _, q := range fn.Params {
+						if types.Identical(q.Type(), arg.Type()) && dependsOn(arg, q, 0) {
+							if _, isCall := arg.(*ssa.Call); !isCall {
+								n++
+								ctx.Check(false, rule, ssax.Name(fn)+" › builds the exception from its "+what+" parameter unchanged", r.IPos(c.Instr), "",
+									"the exception "+what+" is "+arg.String()+", computed from parameter "+q.Name()+": the caller decodes another type id / message than the one reported")
+							}
+						}
+					}
+					continue
+				}
+				seen[fn] = true
+				for j, q := range fn.Params {
+					if q == p {
+						visit(fn, j, what)
+					}
+				}
+			}
+		}
+	}
+	if n == 0 {
+		ctx.Unresolved(rule, "exception construction", "no NewTApplicationException fed by a parameter found")
 	}
 }
